@@ -78,3 +78,12 @@ package mapping
 //@   ensures  implies(err == nil && opts != nil && u.opts.fillDefault, opts.Optional == P.Optional)
 //@   modifies calls(u.opts.canonicalKey)
 //@   allocates
+
+// validate-before-set: the setter is reached only on paths on which both validators returned nil for this value
+//@ func (u *Unmarshaler) processFieldPrimitiveWithJSONNumber
+//@   property C08
+//@   ghost at after validateJsonNumberRange#0: vr = ret
+//@   ghost at after validateValueInOptions#0: vo = ret
+//@   call validateJsonNumberRange#0: assert arg_v == v && arg_opts == opts
+//@   call SetValue#0: assert vr == nil && vo == nil
+//@   loop 0: invariant vr == nil && vo == nil
